@@ -4,6 +4,8 @@ package main
 
 import (
 	"fmt"
+	"errors"
+	"io"
 	"net"
 	"runtime"
 	"strconv"
@@ -21,43 +23,141 @@ import (
 // in-memory connections whose far ends the harness scripts:  `pipe <pd|mux> <events…>`
 // events: wd<n> / wu<n> — n bytes arrive at down / up;  cd / cu — the peer of down / up closes.
 
-type nearConn struct {
-	net.Conn
-	closed int32
+// memHalf is one direction of an in-memory connection with socket-like semantics that net.Pipe lacks:
+// buffered writes, half-close, and a reader that can stop reading (writes then block).
+type memHalf struct {
+	mu         sync.Mutex
+	cond       *sync.Cond
+	buf        []byte
+	total      int  // bytes ever accepted
+	bad        bool // content check failed (set by the counting side)
+	eof        bool // writer finished: reader gets EOF after the buffer
+	readerGone bool // reader closed: writes fail
+	stall      bool // reader stopped reading: writes block
+	check      bool // verify that accepted bytes are stream positions (counting mode)
+	checkBase  int
 }
 
-func (n *nearConn) Close() error {
-	atomic.StoreInt32(&n.closed, 1)
-	return n.Conn.Close()
+func newMemHalf() *memHalf { h := &memHalf{}; h.cond = sync.NewCond(&h.mu); return h }
+
+// memEnd is one endpoint: reads from `in`, writes to `out`.
+type memEnd struct {
+	fakeConn
+	in, out *memHalf
+	mu      sync.Mutex
+	closed  bool
+	nclosed int32
 }
 
-type farEnd struct {
-	c      net.Conn
-	mu     sync.Mutex
-	n      int
-	bad    bool
-	closed bool
+func memPair() (*memEnd, *memEnd) {
+	a2b, b2a := newMemHalf(), newMemHalf()
+	return &memEnd{in: b2a, out: a2b}, &memEnd{in: a2b, out: b2a}
 }
 
-func (f *farEnd) readLoop() {
-	buf := make([]byte, 65536)
+func (e *memEnd) isClosed() bool { e.mu.Lock(); defer e.mu.Unlock(); return e.closed }
+
+func (e *memEnd) Read(p []byte) (int, error) {
+	h := e.in
+	h.mu.Lock()
+	defer h.mu.Unlock()
 	for {
-		k, err := f.c.Read(buf)
-		f.mu.Lock()
-		for i := 0; i < k; i++ {
-			if buf[i] != byte((f.n+i)%251) {
-				f.bad = true
-			}
+		if e.isClosed() {
+			return 0, io.ErrClosedPipe
 		}
-		f.n += k
-		f.mu.Unlock()
-		if err != nil {
-			return
+		if len(h.buf) > 0 {
+			n := copy(p, h.buf)
+			h.buf = h.buf[n:]
+			return n, nil
 		}
+		if h.eof {
+			return 0, io.EOF
+		}
+		h.cond.Wait()
 	}
 }
 
-func (f *farEnd) count() int { f.mu.Lock(); defer f.mu.Unlock(); return f.n }
+func (e *memEnd) Write(p []byte) (int, error) {
+	h := e.out
+	h.mu.Lock()
+	defer h.mu.Unlock()
+	for {
+		if e.isClosed() {
+			return 0, io.ErrClosedPipe
+		}
+		if h.readerGone {
+			return 0, errors.New("write: broken pipe")
+		}
+		if !h.stall {
+			break
+		}
+		h.cond.Wait()
+	}
+	if h.check {
+		for i, c := range p {
+			if c != byte((h.checkBase+h.total+i)%251) {
+				h.bad = true
+			}
+		}
+		h.total += len(p)
+	} else {
+		h.buf = append(h.buf, p...)
+		h.total += len(p)
+	}
+	h.cond.Broadcast()
+	return len(p), nil
+}
+
+func (e *memEnd) Close() error {
+	e.mu.Lock()
+	already := e.closed
+	e.closed = true
+	e.mu.Unlock()
+	atomic.StoreInt32(&e.nclosed, 1)
+	if already {
+		return nil
+	}
+	e.out.mu.Lock()
+	e.out.eof = true
+	e.out.cond.Broadcast()
+	e.out.mu.Unlock()
+	e.in.mu.Lock()
+	e.in.readerGone = true
+	e.in.cond.Broadcast()
+	e.in.mu.Unlock()
+	return nil
+}
+
+// closeWrite: this endpoint stops writing (its peer reads EOF) but keeps reading.
+func (e *memEnd) closeWrite() {
+	e.out.mu.Lock()
+	e.out.eof = true
+	e.out.cond.Broadcast()
+	e.out.mu.Unlock()
+}
+
+// stopReading: this endpoint stops reading (its peer's writes block).
+func (e *memEnd) stopReading() {
+	e.in.mu.Lock()
+	e.in.stall = true
+	e.in.mu.Unlock()
+}
+
+// startCounting switches this endpoint's inbound half to counting mode: bytes the peer writes from now on are
+// verified against the position stream and counted instead of buffered.
+func (e *memEnd) startCounting() {
+	e.in.mu.Lock()
+	e.in.check = true
+	e.in.checkBase = 0
+	e.in.total = 0
+	e.in.buf = nil
+	e.in.mu.Unlock()
+}
+
+func (e *memEnd) received() (int, bool) {
+	e.in.mu.Lock()
+	defer e.in.mu.Unlock()
+	return e.in.total, e.in.bad
+}
 
 type pipeFakeChannel struct {
 	name string
@@ -111,12 +211,8 @@ func (pipeComp) Exec(op string) (string, string, string, bool) {
 		return "bad-op", "", "bad", false
 	}
 	base := stablePipeGoroutines()
-	dNearRaw, dFarC := net.Pipe()
-	uNearRaw, uFarC := net.Pipe()
-	dNear := &nearConn{Conn: dNearRaw}
-	uNear := &nearConn{Conn: uNearRaw}
-	dFar := &farEnd{c: dFarC}
-	uFar := &farEnd{c: uFarC}
+	dNear, dFar := memPair()
+	uNear, uFar := memPair()
 	ret := make(chan error, 1)
 	if f[0] == "pd" {
 		go func() {
@@ -125,14 +221,19 @@ func (pipeComp) Exec(op string) (string, string, string, bool) {
 	} else {
 		chans := server.Channels{&pipeFakeChannel{name: "x", conn: uNear}}
 		go func() { ret <- server.VerifMultiplexToUpstream(chans, streams.NewNamedConnection(dNear, "down")) }()
-		_ = dFarC.SetDeadline(time.Now().Add(5 * time.Second))
-		if err := ms.SelectProtoOrFail("/x", dFarC); err != nil {
-			return "fail:select", "protocol selection failed: " + err.Error(), "fail", false
+		sel := make(chan error, 1)
+		go func() { sel <- ms.SelectProtoOrFail("/x", dFar) }()
+		select {
+		case err := <-sel:
+			if err != nil {
+				return "fail:select", "protocol selection failed: " + err.Error(), "fail", false
+			}
+		case <-time.After(5 * time.Second):
+			return "fail:select", "protocol selection timed out", "fail", false
 		}
-		_ = dFarC.SetDeadline(time.Time{})
 	}
-	go dFar.readLoop()
-	go uFar.readLoop()
+	dFar.startCounting()
+	uFar.startCounting()
 
 	retStr := "-"
 	settle := func() {
@@ -148,7 +249,9 @@ func (pipeComp) Exec(op string) (string, string, string, bool) {
 				}
 			default:
 			}
-			cur := fmt.Sprintf("%s %d %d %d %d %d", retStr, dFar.count(), uFar.count(), atomic.LoadInt32(&dNear.closed), atomic.LoadInt32(&uNear.closed), pipeGoroutines())
+			dn, _ := dFar.received()
+			un, _ := uFar.received()
+			cur := fmt.Sprintf("%s %d %d %d %d %d", retStr, dn, un, atomic.LoadInt32(&dNear.nclosed), atomic.LoadInt32(&uNear.nclosed), pipeGoroutines())
 			if cur == last {
 				same++
 			} else {
@@ -159,26 +262,37 @@ func (pipeComp) Exec(op string) (string, string, string, bool) {
 		}
 	}
 	wroteD, wroteU := 0, 0
-	sawCD, sawCU, sawWU := false, false, false
+	sawCD, sawCU, sawWU, sawStall, sawHalf := false, false, false, false, false
 	for _, ev := range f[1:] {
 		switch {
 		case ev == "cd":
-			_ = dFarC.Close()
+			_ = dFar.Close()
 			sawCD = true
 		case ev == "cu":
-			_ = uFarC.Close()
+			_ = uFar.Close()
 			sawCU = true
+		case ev == "hd":
+			dFar.closeWrite()
+			sawHalf = true
+		case ev == "hu":
+			uFar.closeWrite()
+			sawHalf = true
+		case ev == "sd":
+			dFar.stopReading()
+			sawStall = true
+		case ev == "su":
+			uFar.stopReading()
+			sawStall = true
 		case strings.HasPrefix(ev, "wd") || strings.HasPrefix(ev, "wu"):
 			n, err := strconv.Atoi(ev[2:])
 			if err != nil {
 				return "bad-op", "", "bad", false
 			}
-			c, start := dFarC, &wroteD
+			c, start := dFar, &wroteD
 			if ev[1] == 'u' {
-				c, start = uFarC, &wroteU
+				c, start = uFar, &wroteU
 				sawWU = true
 			}
-			_ = c.SetWriteDeadline(time.Now().Add(2 * time.Second))
 			k, _ := c.Write(streamBytes(*start, n))
 			*start += k
 		default:
@@ -186,32 +300,46 @@ func (pipeComp) Exec(op string) (string, string, string, bool) {
 		}
 		settle()
 	}
+	dGot, dBad := dFar.received()
+	uGot, uBad := uFar.received()
 	live := pipeGoroutines() - base
-	res := fmt.Sprintf("ret=%s dOut=%d uOut=%d dClosed=%v uClosed=%v live=%d", retStr, dFar.count(), uFar.count(),
-		atomic.LoadInt32(&dNear.closed) == 1, atomic.LoadInt32(&uNear.closed) == 1, live)
+	dCl, uCl := atomic.LoadInt32(&dNear.nclosed) == 1, atomic.LoadInt32(&uNear.nclosed) == 1
+	res := fmt.Sprintf("ret=%s dOut=%d uOut=%d dClosed=%v uClosed=%v live=%d", retStr, dGot, uGot, dCl, uCl, live)
 	mon := ""
-	if dFar.bad || uFar.bad {
+	if dBad || uBad {
 		mon = "bytes altered or reordered in transit"
 	}
-	// C14: once PipeData has returned and both ends are gone, no copier goroutine may remain
-	if mon == "" && retStr != "-" && live > 0 {
+	// C14: once the pipe has ended no copier goroutine may remain (with PipeData alone and a peer that stopped
+	// reading nobody closes the blocked end: that case is the callers' job and is checked in mux mode)
+	if mon == "" && retStr != "-" && live > 0 && (f[0] == "mux" || !sawStall) {
 		mon = fmt.Sprintf("%d copier goroutine(s) still alive after the pipe ended", live)
 	}
 	// C14: every connection of the pair has been closed once the pipe and its caller are done (mux mode)
-	if mon == "" && f[0] == "mux" && retStr != "-" && (atomic.LoadInt32(&dNear.closed) == 0 || atomic.LoadInt32(&uNear.closed) == 0) {
-		mon = fmt.Sprintf("connection left open after the logical connection ended (down closed=%v, target closed=%v)", atomic.LoadInt32(&dNear.closed) == 1, atomic.LoadInt32(&uNear.closed) == 1)
+	if mon == "" && f[0] == "mux" && retStr != "-" && (!dCl || !uCl) {
+		mon = fmt.Sprintf("connection left open after the logical connection ended (down closed=%v, target closed=%v)", dCl, uCl)
+	}
+	// C14: the server per-stream path must end once either side has finished and the other has been closed:
+	// a logical connection whose target has half-closed and answered must not stay open forever
+	// (a direction counts as ended when its source finished and its copier cannot be blocked in a Write, i.e. the
+	// opposite peer has not stopped reading)
+	endedD := strings.Contains(" "+strings.Join(f[1:], " ")+" ", " cd ") || strings.Contains(" "+strings.Join(f[1:], " ")+" ", " hd ")
+	endedU := strings.Contains(" "+strings.Join(f[1:], " ")+" ", " cu ") || strings.Contains(" "+strings.Join(f[1:], " ")+" ", " hu ")
+	stallU := strings.Contains(" "+strings.Join(f[1:], " ")+" ", " su ")
+	stallD := strings.Contains(" "+strings.Join(f[1:], " ")+" ", " sd ")
+	if mon == "" && retStr == "-" && ((endedD && !stallU) || (endedU && !stallD)) {
+		mon = "the pipe never ended although one direction had finished"
 	}
 	// C17: the application wrote, then closed, the target stayed silent: target must get everything, then EOF
-	if mon == "" && sawCD && !sawCU && !sawWU {
-		if uFar.count() != wroteD {
-			mon = fmt.Sprintf("target received %d of %d bytes written before the close", uFar.count(), wroteD)
-		} else if atomic.LoadInt32(&uNear.closed) == 0 {
+	if mon == "" && sawCD && !sawCU && !sawWU && !sawStall && !sawHalf {
+		if uGot != wroteD {
+			mon = fmt.Sprintf("target received %d of %d bytes written before the close", uGot, wroteD)
+		} else if !uCl {
 			mon = "target connection not closed after the application closed"
 		}
 	}
 	// clean up so that the next scenario starts from a stable census
-	_ = dFarC.Close()
-	_ = uFarC.Close()
+	_ = dFar.Close()
+	_ = uFar.Close()
 	_ = dNear.Close()
 	_ = uNear.Close()
 	stablePipeGoroutines()
@@ -229,6 +357,9 @@ func (pipeComp) Gen(r *Rand, tier string, emit func(string)) {
 	scripts := []string{
 		"cd", "cu", "wd10 cd", "wu10 cu", "wd10 wu20 cd", "wd10 wu20 cu", "wd1 cd cu", "wu1 cu cd",
 		"wd40000 cd", "wu40000 cu", "wd32768 wd1 cd", "wd10 cd wu5", "wu10 cu wd5", "wd5", "wd5 wu5",
+		"hd", "hu", "wd10 hd", "wu10 hu", "wd10 hd wu5 hu", "wu10 hu wd5 hd", "hu cd", "hd cu",
+		"su wd100 wu5 hu", "su wd100 hu", "sd wu100 hd", "su wd100 cd", "su wd100 wu5 hu cd", "sd wu100 wd5 hd cu",
+		"su wd100 hu cu", "wd10 su wd20 hu",
 	}
 	for _, m := range []string{"pd", "mux"} {
 		for _, s := range scripts {
@@ -243,7 +374,17 @@ func (pipeComp) Gen(r *Rand, tier string, emit func(string)) {
 		var evs []string
 		closedD, closedU := false, false
 		for j := 0; j < 1+r.Intn(6); j++ {
-			switch r.Intn(6) {
+			switch r.Intn(9) {
+			case 6:
+				if !closedD {
+					evs = append(evs, "hd")
+				}
+			case 7:
+				if !closedU {
+					evs = append(evs, "hu")
+				}
+			case 8:
+				evs = append(evs, []string{"su", "sd"}[r.Intn(2)])
 			case 0:
 				if !closedD {
 					evs = append(evs, "cd")
